@@ -658,9 +658,17 @@ class SimWorld:
 # ----------------------------------------------------------------------------
 # snapshots (always taken with the original functions)
 # ----------------------------------------------------------------------------
+class Snap(dict):
+    """A snapshot; `links` lists groups of paths that are hard links to one file (restore() re-creates
+    them; comparisons between snapshots look at the entries only)."""
+
+    links = ()
+
+
 def snapshot(root, mtimes=False, skip=()):
     """{relative path: ('d',) | ('l', target) | ('f', bytes[, mtime_ns])}"""
-    out = {}
+    out = Snap()
+    inodes = {}
     stack = [""]
     while stack:
         rel = stack.pop()
@@ -683,10 +691,14 @@ def snapshot(root, mtimes=False, skip=()):
             else:
                 with O.io_open(e.path, "rb") as f:
                     data = f.read()
+                st = e.stat(follow_symlinks=False)
+                if st.st_nlink > 1:
+                    inodes.setdefault((st.st_dev, st.st_ino), []).append(r)
                 if mtimes:
                     out[r] = ("f", data, O.stat(e.path).st_mtime_ns)
                 else:
                     out[r] = ("f", data)
+    out.links = tuple(tuple(sorted(g)) for g in inodes.values() if len(g) > 1)
     return out
 
 
@@ -706,6 +718,11 @@ def restore(root, snap):
                 f.write(ent[1])
             if len(ent) > 2:
                 O.utime(full, ns=(ent[2], ent[2]))
+    for group in getattr(snap, "links", ()):
+        first = os.path.join(root, group[0])
+        for other in group[1:]:
+            O.unlink(os.path.join(root, other))
+            O.link(first, os.path.join(root, other))
 
 
 def wipe(root):
